@@ -119,7 +119,7 @@ pub fn run_compiled(
 /// first difference between two states, restricted to global variables, X and Y
 pub fn diff_states(p: &Program, a: &State, b: &State, check_xy: bool) -> Option<String> {
     for (i, v) in p.vars.iter().enumerate() {
-        if v.scope != Scope::Global {
+        if v.scope != Scope::Global || v.name == "sink" {
             continue;
         }
         match &v.kind {
